@@ -200,6 +200,11 @@ func (o *ownRule) sink(fr *frame, in ssa.Instruction, s uint64, paths []int, how
 	}
 }
 
+func (o *ownRule) instrBits(fr *frame, in ssa.Instruction, s bits) bits {
+	s[0] = o.instr(fr, in, s[0])
+	return s
+}
+
 func (o *ownRule) instr(fr *frame, in ssa.Instruction, s uint64) uint64 {
 	switch x := in.(type) {
 	case *ssa.Call:
@@ -312,8 +317,8 @@ func (x *ctx) own2(root *ssa.Function, ctl bool) {
 	o := &ownRule{x: x, root: root, viol: map[int][]string{}, violAt: map[int]ssa.Instruction{}, label: map[ssa.Instruction]string{}}
 	o.fns = scopeOf(root)
 	o.res = newResolver(o.fns)
-	fl := &flow{inScope: o.res.inScope, instr: o.instr}
-	fl.run(&frame{fn: root}, 1<<63) // bit 63 = "reachable", pairs use bits 0..62
+	fl := &flow{inScope: o.res.inScope, instr: o.instrBits}
+	fl.run(&frame{fn: root}, bits{1 << 63, 0}) // bit 63 = "reachable", pairs use bits 0..62
 	if o.tooBig {
 		x.record(ctl, "OWN-2", name, nil, root, "", "more than 63 (hand-off, variable) pairs: not analysed")
 		return
@@ -537,6 +542,14 @@ func (x *ctx) face1(root *ssa.Function, ctl bool) {
 				}
 				return true
 			})
+		}
+		// the whole arm: a face line cannot be consumed without its triangle being appended
+		if viol == "" && common == root {
+			if entry, tag := armEntry(A[0].Block()); entry != nil {
+				if l := loopOf(entry); l != nil && canBypass(entry, l.Header, map[ssa.Instruction]bool{A[0]: true}, l.Blocks) {
+					viol = "a '" + tag + "' line can be consumed without its triangle being appended (the scan loop is continued on a path through the arm that is not an error return): the face is lost"
+				}
+			}
 		}
 		x.record(ctl, "FACE-1", construct, a, nil, viol, "", fmt.Sprintf("%d indices appended per increment of %d; increment at %s", n, k, x.P.Pos(ssau.PosOf(I[0]))))
 	}
